@@ -18,7 +18,7 @@ PROPS = {
             'align_struct preconditions (struct or word with sized members; layout fits usize) are the typer\'s obligation, not verified'], 'trusted': []},
     'C08': {'units': ['U-MUT'], 'assumptions': ['the mutability tree walk (Analyzable impls of mutability.rs) and the whole-program non-interference consequence are not under contract'], 'trusted': []},
     'C12': {'units': ['U-EXPORT'], 'assumptions': ['expand (import fix-point), Compiler multi-module state and split-equivalence are not under contract'], 'trusted': []},
-    'C13': {'units': ['U-CODE', 'U-LEXD'], 'assumptions': ['alpha spans, rendering (ariadne) and run-to-run determinism are not under contract'], 'trusted': []},
+    'C13': {'units': ['U-CODE', 'U-LEXD', 'U-LOC'], 'assumptions': ['alpha spans, rendering (ariadne) and run-to-run determinism are not under contract'], 'trusted': []},
     'C14': {'units': ['U-LEXD'], 'assumptions': ['the alpha lexer itself is not under contract, hence not the headline equivalence'], 'trusted': []},
     'C15': {'units': ['U-LEXD', 'U-PARSE', 'U-HDR', 'U-DIG'], 'assumptions': ['XML dumps (as_xml/print_xml) excluded: format!/Box<dyn Iterator>/&str slicing',
             'parse() precondition: the token list comes from lex() without errors (ends in two EndOfSource tokens, packed words well formed) - the lexer unit does not yet export this as a postcondition',
